@@ -255,3 +255,31 @@ func (g *SynGrammar) WithRecordingActions() *SynGrammar {
 	}
 	return &c
 }
+
+// RecoveryCorpus: grammars with error alternatives (C07).
+var RecoveryCorpus = []*SynGrammar{
+	{Name: "G14", Why: "statement list with a synchronising token after error",
+		Lex: stdLex + "id : 'a'-'z' ;\n",
+		Prods: []Prod{
+			P("Stmts", NT("Stmts"), NT("Stmt")), P("Stmts", NT("Stmt")),
+			P("Stmt", Tok("id"), Lit(";")), P("Stmt", Err(), Lit(";")),
+		}},
+	{Name: "G15", Why: "an alternative that is the error symbol alone, in a delimited context",
+		Lex: stdLex,
+		Prods: []Prod{
+			P("S", Lit("("), NT("A"), Lit(")")),
+			P("A", Lit("a")), P("A", Err()),
+		}},
+	{Name: "G17", Why: "error alternative whose state after the synchronising token still holds the error item (D6)",
+		Lex: stdLex,
+		Prods: []Prod{
+			P("S", NT("A")), P("S", NT("S"), NT("A")),
+			P("A", Lit("a"), Lit("b")), P("A", Err(), Lit("b")),
+		}},
+	{Name: "G16", Why: "nested recovery contexts: blocks inside a list",
+		Lex: stdLex,
+		Prods: []Prod{
+			P("L", NT("L"), NT("I")), P("L", NT("I")),
+			P("I", Lit("x"), Lit(";")), P("I", Lit("{"), NT("L"), Lit("}")), P("I", Err(), Lit(";")),
+		}},
+}
